@@ -240,6 +240,20 @@ func genDst(rt *rapid.T, src img.Spec) img.Spec {
 	dw, dh := rapid.IntRange(0, 3).Draw(rt, "dw"), rapid.IntRange(0, 3).Draw(rt, "dh")
 	ox, oy := rapid.IntRange(-6, 6).Draw(rt, "dx0"), rapid.IntRange(-6, 6).Draw(rt, "dy0")
 	d.Rect = [4]int{ox, oy, ox + w + dw, oy + h + dh}
+	if rapid.IntRange(0, 4).Draw(rt, "samebounds") == 0 {
+		// exactly the source's bounds (a tile and the region of a canvas it goes to): equal rectangles say nothing
+		// about equal strides or equal types
+		d.Rect = src.Rect
+		dw, dh = 0, 0
+		ox, oy = src.Rect[0], src.Rect[1]
+		if rapid.Bool().Draw(rt, "sametype") {
+			for _, t := range allDstTypes {
+				if t == src.Type {
+					d.Type = t
+				}
+			}
+		}
+	}
 	d.Parent = d.Rect
 	if w+dw > 0 && h+dh > 0 && rapid.Bool().Draw(rt, "dsub") {
 		d.Parent = [4]int{ox - rapid.IntRange(0, 3).Draw(rt, "dml"), oy - rapid.IntRange(0, 3).Draw(rt, "dmt"),
@@ -263,7 +277,7 @@ func TestC10(t *testing.T) {
 		fmt.Println("REPLAY case passed")
 		return
 	}
-	ev.Rule("rapid: source of every standard image type (incl. opaque wrapper, sub-images, negative origins, empty/1xN/Nx1, a quarter with 10..40 rows), destination of every standard draw.Image type (RGBA64, RGBA, NRGBA, NRGBA64, Gray, Gray16, Alpha, Alpha16, CMYK, Paletted) or an opaque wrapper with its own origin, size = source + (0..3, 0..3), optionally a sub-image of a sentinel-filled parent; parallelism in {1,2,3,7,16,rows+5}; transform in {Linearise,Encode} x 4 spaces + TransformImageColor with an injective channel-rotating function; in-place for the draw.Image types; an eighth of the cases use two disjoint sub-images of one canvas as source and destination. Also a fixed cross product of source types x destination types x parallelism x transforms on awkward geometry, and banners (1-3 rows of 129..20000 pixels, widths around powers of two, sub-image destinations, in-place; a tenth of the rapid images and a sweep over every type pair). Oracle: Set()-based model on a clone, whole parent buffers compared byte for byte. non-trivial = distinct case with differing origins, a sub-image, parallelism>1 with >=2 rows, a concrete fast path, or in-place")
+	ev.Rule("rapid: source of every standard image type (incl. opaque wrapper, sub-images, negative origins, empty/1xN/Nx1, a quarter with 10..40 rows), destination of every standard draw.Image type (RGBA64, RGBA, NRGBA, NRGBA64, Gray, Gray16, Alpha, Alpha16, CMYK, Paletted) or an opaque wrapper with its own origin, size = source + (0..3, 0..3) (a fifth with exactly the source's bounds, half of those of the source's type), optionally a sub-image of a sentinel-filled parent; parallelism in {1,2,3,7,16,rows+5}; transform in {Linearise,Encode} x 4 spaces + TransformImageColor with an injective channel-rotating function; in-place for the draw.Image types; an eighth of the cases use two disjoint sub-images of one canvas as source and destination. Also a fixed cross product of source types x destination types x parallelism x transforms on awkward geometry, and banners (1-3 rows of 129..20000 pixels, widths around powers of two, sub-image destinations, in-place; a tenth of the rapid images and a sweep over every type pair). Oracle: Set()-based model on a clone, whole parent buffers compared byte for byte. non-trivial = distinct case with differing origins, a sub-image, parallelism>1 with >=2 rows, a concrete fast path, or in-place")
 	ev.Assume("the per-colour functions themselves are checked by C01/C02/C14; destination at least as large as the source (the documented precondition)")
 	// fixed cross product
 	n := 0
